@@ -51,9 +51,22 @@ pub enum TOp {
     StrExtend(String),
     StrFromIter(String),
     StrExtendStrs(usize),
+    /// `write!` (macro = false) / `bumpalo::format!` (macro = true) with `n` arguments whose
+    /// `Display` writes a multi-byte character in two pieces and may panic in between
+    StrWriteFmt { n: usize, in_macro: bool },
+    /// `collect_in::<String>` / `String::from_iter_in` over `&str` pieces
+    StrCollectIn(usize),
     // boxes
     BoxDrop,
     BoxArrayDrop,
+    /// `Box::from_iter_in` (collect = false) / `collect_in::<Box<[T]>>` (collect = true)
+    BoxFromIterIn { n: usize, hint: HintKind, collect: bool },
+    /// `collect_in::<Result<Vec<T>, u32>>`; the `stop_at`-th item is `Err`
+    CollectInResult { n: usize, stop_at: Option<usize> },
+    /// fallible twins of the value initialisers
+    TryAllocWith,
+    TryAllocTryWith { fail: bool },
+    SliceTryFillIter { n: usize, fail_at: Option<usize> },
 }
 
 #[derive(Clone, Copy, Debug, PartialEq, Eq, Serialize, Deserialize)]
@@ -407,6 +420,102 @@ fn run_vec<E: Elem>(s: &W3Script, bump: &'static Bump, ck: &mut Ck, stats: &mut 
                 drop(s)
             })
         }
+        TOp::BoxFromIterIn { n, hint, collect } => {
+            v_opt = Some(v);
+            let ids = fresh_ids(*n);
+            let r = b_call(|| {
+                if *collect {
+                    TagIter::<E>::new(&ids, 1, *hint).collect_in::<BBox<[E]>>(bump)
+                } else {
+                    BBox::from_iter_in(TagIter::<E>::new(&ids, 1, *hint), bump)
+                }
+            });
+            r.map(|b| {
+                boxed = Some(b);
+            })
+        }
+        TOp::CollectInResult { n, stop_at } => {
+            v_opt = Some(v);
+            let ids = fresh_ids(*n);
+            let stop = *stop_at;
+            let mut k = 0usize;
+            let r = b_call(|| {
+                TagIter::<E>::new(&ids, 1, HintKind::Exact)
+                    .map(|e| {
+                        let i = k;
+                        k += 1;
+                        if Some(i) == stop {
+                            let _g = harness_scope();
+                            drop(e);
+                            Err(i as u32)
+                        } else {
+                            Ok(e)
+                        }
+                    })
+                    .collect_in::<Result<BVec<E>, u32>>(bump)
+            });
+            r.map(|c| {
+                if let Ok(c) = c {
+                    second = Some(c);
+                }
+            })
+        }
+        TOp::TryAllocWith => {
+            v_opt = Some(v);
+            let id = track::fresh_id();
+            b_call(|| {
+                let _ = bump.try_alloc_with(|| {
+                    let _g = harness_scope();
+                    tick(TICK_CLOSURE);
+                    E::mk(id, 1)
+                });
+            })
+        }
+        TOp::TryAllocTryWith { fail } => {
+            v_opt = Some(v);
+            let id = track::fresh_id();
+            let fail = *fail;
+            b_call(|| {
+                let r = bump.try_alloc_try_with(|| {
+                    let _g = harness_scope();
+                    tick(TICK_CLOSURE);
+                    if fail {
+                        Err(E::mk(id, 1))
+                    } else {
+                        Ok(E::mk(id, 1))
+                    }
+                });
+                if let Err(e) = r {
+                    let _g = harness_scope();
+                    drop(e);
+                }
+            })
+        }
+        TOp::SliceTryFillIter { n, fail_at } => {
+            v_opt = Some(v);
+            let ids = fresh_ids(*n + 1);
+            let fail_at = *fail_at;
+            let last = ids[ids.len() - 1];
+            let mut k = 0usize;
+            b_call(|| {
+                let it = TagIterExact::<E> { it: TagIter::new(&ids[..ids.len() - 1], 1, HintKind::Exact) }.map(|e| {
+                    let i = k;
+                    k += 1;
+                    if Some(i) == fail_at {
+                        let _g = harness_scope();
+                        drop(e);
+                        Err(E::mk(last, 7))
+                    } else {
+                        Ok(e)
+                    }
+                });
+                let r = bump.alloc_slice_try_fill_iter(it);
+                if let Err(e) = r {
+                    let _g = harness_scope();
+                    drop(e);
+                }
+            })
+        }
         TOp::SliceFillWith { n } => {
             v_opt = Some(v);
             let ids = fresh_ids(*n);
@@ -496,7 +605,7 @@ fn run_vec<E: Elem>(s: &W3Script, bump: &'static Bump, ck: &mut Ck, stats: &mut 
                 }
             })
         }
-        TOp::StrRetain(_) | TOp::StrExtend(_) | TOp::StrFromIter(_) | TOp::StrExtendStrs(_) => unreachable!(),
+        TOp::StrRetain(_) | TOp::StrExtend(_) | TOp::StrFromIter(_) | TOp::StrExtendStrs(_) | TOp::StrWriteFmt { .. } | TOp::StrCollectIn(_) => unreachable!(),
     };
     let (count, fired) = track::disarm();
     if r.is_err() {
@@ -637,6 +746,60 @@ fn run_str(s: &W3Script, bump: &'static Bump, ck: &mut Ck, stats: &mut Stats) ->
                 }))
             })
         }
+        TOp::StrWriteFmt { n, in_macro } => {
+            struct Piecewise(u32);
+            impl std::fmt::Display for Piecewise {
+                fn fmt(&self, f: &mut std::fmt::Formatter) -> std::fmt::Result {
+                    f.write_str("語")?;
+                    {
+                        let _g = harness_scope();
+                        tick(TICK_CLOSURE);
+                    }
+                    f.write_str("é")?;
+                    write!(f, "{}", self.0)
+                }
+            }
+            let n = (*n).min(4);
+            if *in_macro {
+                b_call(|| match n {
+                    0 => bumpalo::format!(in bump, "x{}", 1),
+                    1 => bumpalo::format!(in bump, "{}😀", Piecewise(1)),
+                    2 => bumpalo::format!(in bump, "{}-{:>7}", Piecewise(1), Piecewise(2)),
+                    _ => bumpalo::format!(in bump, "{}{}{}", Piecewise(1), Piecewise(2), Piecewise(3)),
+                })
+                .map(|x| {
+                    second = Some(x);
+                })
+            } else {
+                use std::fmt::Write;
+                b_call(|| {
+                    let _ = match n {
+                        0 => write!(b, "x"),
+                        1 => write!(b, "{}😀", Piecewise(1)),
+                        2 => write!(b, "{}-{:>7}", Piecewise(1), Piecewise(2)),
+                        _ => write!(b, "{}{}{}", Piecewise(1), Piecewise(2), Piecewise(3)),
+                    };
+                })
+            }
+        }
+        TOp::StrCollectIn(n) => {
+            let parts = ["é", "ab", "語", "😀", "z"];
+            let n = *n;
+            let it = (0..n).map(|i| {
+                let _g = harness_scope();
+                tick(TICK_ITER);
+                parts[i % parts.len()]
+            });
+            if n % 2 == 0 {
+                b_call(|| it.collect_in::<BString>(bump)).map(|x| {
+                    second = Some(x);
+                })
+            } else {
+                b_call(|| BString::from_iter_in(it, bump)).map(|x| {
+                    second = Some(x);
+                })
+            }
+        }
         _ => unreachable!(),
     };
     let (count, fired) = track::disarm();
@@ -693,7 +856,10 @@ pub fn exec_w3(s: &W3Script) -> W3Report {
     };
     let ptr: *mut Bump = Box::into_raw(Box::new(b));
     let bump: &'static Bump = unsafe { &*ptr };
-    let is_str = matches!(s.target, TOp::StrRetain(_) | TOp::StrExtend(_) | TOp::StrFromIter(_) | TOp::StrExtendStrs(_));
+    let is_str = matches!(
+        s.target,
+        TOp::StrRetain(_) | TOp::StrExtend(_) | TOp::StrFromIter(_) | TOp::StrExtendStrs(_) | TOp::StrWriteFmt { .. } | TOp::StrCollectIn(_)
+    );
     let (count, fired) = if is_str {
         run_str(s, bump, &mut ck, &mut stats)
     } else {
@@ -777,7 +943,7 @@ pub fn gen_w3(seed: u64) -> W3Script {
         2 => Consume::Mixed(1 + r.below(2) as u8, 0),
         _ => Consume::DropNow,
     };
-    let target = match r.below(40) {
+    let target = match r.below(42) {
         0..=2 => TOp::Retain(pred),
         3..=6 => TOp::DrainFilter(pred, df_consume),
         7 => TOp::Dedup,
@@ -821,21 +987,28 @@ pub fn gen_w3(seed: u64) -> W3Script {
             TOp::SliceTryFillWith { n, fail_at: if r.chance(1, 2) && n > 0 { Some(r.usize_below(n)) } else { None } }
         }
         35 | 36 => TOp::StrRetain(*r.pick(&[Pred::Lt(128), Pred::Mod(2, 0), Pred::Mod(2, 1), Pred::Lt(0x800), Pred::True])),
-        37 => {
-            if r.chance(1, 2) {
-                TOp::StrExtend(crate::w2_gen::text(&mut r, 6))
-            } else {
-                TOp::StrExtendStrs(r.usize_below(6))
-            }
-        }
+        37 => match r.below(4) {
+            0 => TOp::StrExtend(crate::w2_gen::text(&mut r, 6)),
+            1 => TOp::StrExtendStrs(r.usize_below(6)),
+            2 => TOp::StrWriteFmt { n: r.usize_below(4), in_macro: r.chance(1, 2) },
+            _ => TOp::StrCollectIn(r.usize_below(7)),
+        },
         38 => TOp::StrFromIter(crate::w2_gen::text(&mut r, 6)),
-        _ => {
-            if r.chance(1, 2) {
-                TOp::BoxDrop
-            } else {
-                TOp::BoxArrayDrop
+        _ => match r.below(8) {
+            0 => TOp::BoxDrop,
+            1 => TOp::BoxArrayDrop,
+            2 | 3 => TOp::BoxFromIterIn { n: small(&mut r), hint, collect: r.chance(1, 2) },
+            4 => {
+                let n = small(&mut r);
+                TOp::CollectInResult { n, stop_at: if r.chance(1, 2) && n > 0 { Some(r.usize_below(n)) } else { None } }
             }
-        }
+            5 => TOp::TryAllocWith,
+            6 => TOp::TryAllocTryWith { fail: r.chance(1, 2) },
+            _ => {
+                let n = small(&mut r);
+                TOp::SliceTryFillIter { n, fail_at: if r.chance(1, 2) && n > 0 { Some(r.usize_below(n)) } else { None } }
+            }
+        },
     };
     // which callback classes may panic in this case (swarm)
     let classes = [TICK_CLOSURE | TICK_ITER, TICK_CLONE, TICK_DROP, TICK_EQ, TICK_DEFAULT];
